@@ -9,6 +9,7 @@ EXPLANATION = (
     "(R-C16-fire) in server::broker::remote every path after RemoteLink::new succeeded reaches the will wait (timeout on will_rx), Event::PublishWill is sent only under publish_will, "
     "and Event::Disconnect is sent unless the link ended with remote::Error::Link (router-initiated). "
     "(R-C16-wake) after appending the will, handle_last_will drains every parked waiter and reschedules it (shared with R-C01-wake); "
+    "(R-C16-fields) the Publish / PublishProperties built in handle_last_will take each field from the like-meaning field of the registered will and its properties; "
     "(R-C16-key) the keys agree: every link's Incoming and Outgoing buffers are created with Connection::new(..).client_id (tenant prefix included), and the will table is keyed by those client_id fields; "
     "NOT decided: ordering of PublishWill against Disconnect processing in the router channel; delay timing.")
 ASSUMPTIONS = ["rustc MIR construction is correct"]
@@ -23,6 +24,7 @@ def run(ctx):
     ctx.guarded("R-C16-fire", fire, ctx, prog)
     ctx.guarded("R-C16-key", key_agreement, ctx, prog)
     ctx.guarded("R-C16-wake", will_wakes_subscribers, ctx, prog)
+    ctx.guarded("R-C16-fields", will_fields, ctx, prog)
 
 
 def will_wakes_subscribers(ctx, prog):
@@ -223,3 +225,46 @@ def key_agreement(ctx, prog):
                 ctx.violation(rule, body.id, "last_wills.%s key" % method, "the will table is accessed with a key that is not a client_id field", site=body.loc(t.get("sp")))
         if not found:
             ctx.anchor_missing(rule, "last_wills.%s in %s" % (method, body.id))
+
+
+WILL_PUBLISH_FIELDS = {"qos": "qos", "retain": "retain", "topic": "topic", "payload": "message"}
+
+
+def will_fields(ctx, prog):
+    """'publishes the will message (topic, payload, retain as registered)': the Publish and the PublishProperties built
+    in handle_last_will take each field from the like-meaning field of the registered will / will properties."""
+    rule = "R-C16-fields"
+    bodies = [prog.one(r"^router::routing::Router::handle_last_will$")] + prog.find(r"^router::routing::Router::handle_last_will::\{closure#\d+\}$")
+    seen_pub = seen_props = 0
+    for b in bodies:
+        for blk in b.blocks:
+            for st in blk["s"]:
+                if "lhs" not in st or st["rv"]["k"] != "agg" or not st["rv"].get("fields"):
+                    continue
+                adt = st["rv"].get("adt", "")
+                if adt.endswith("protocol::Publish"):
+                    seen_pub += 1
+                    for f, wf in WILL_PUBLISH_FIELDS.items():
+                        src = flatten_src(provenance(b, st["rv"]["ops"][st["rv"]["fields"].index(f)]))
+                        names = sorted(set((x.fields or ["?"])[-1] if getattr(x, "fields", None) else x.kind for x in src))
+                        if names == [wf]:
+                            ctx.ok(rule, b.id, "Publish.%s = will.%s" % (f, wf), site=b.loc(st.get("sp")), trivial=True)
+                        else:
+                            ctx.violation(rule, b.id, "Publish.%s source" % f, "the published will's %s is taken from %s instead of the registered will's %s" % (f, names, wf), site=b.loc(st.get("sp")))
+                elif adt.endswith("protocol::PublishProperties"):
+                    seen_props += 1
+                    for f, o in zip(st["rv"]["fields"], st["rv"]["ops"]):
+                        src = flatten_src(provenance(b, o))
+                        from_props = [x for x in src if getattr(x, "fields", None) and x.kind in ("param", "field", "call")]
+                        names = sorted(set(x.fields[-1] for x in from_props))
+                        if not names:
+                            continue      # ..Default::default() / constants
+                        if names == [f]:
+                            ctx.ok(rule, b.id, "PublishProperties.%s = will properties.%s" % (f, f), site=b.loc(st.get("sp")), trivial=True)
+                        else:
+                            ctx.violation(rule, b.id, "PublishProperties.%s source" % f,
+                                          "the published will's property `%s` is copied from the will properties' `%s`: e.g. a Will Delay Interval of 0 becomes a message expiry of 0 and the will is never delivered" % (f, "/".join(names)),
+                                          site=b.loc(st.get("sp")))
+    ctx.floor(rule, "Publish built from the registered will", seen_pub, 1)
+    ctx.floor(rule, "PublishProperties built from the will properties", seen_props, 1)
+    ctx.ok(rule, bodies[0].id, "the will's Publish and PublishProperties take every field from the like-named field of the registration")
